@@ -178,9 +178,22 @@ def stepCase (seq : Bool) (n : Nat) (ns : List String) (acc : Acc) (o : HOp) (st
     | "remove" => (acc.pending, acc.reorder || acc.pending.contains o.e)
     | _ => (acc.pending, acc.reorder)
   let single' := acc.single || (o.kind == "reg1" && implOk)
+  -- the registry built with enable_unifier: false (RoutingRegistry around a MemoryModelRegistry) was fed the same
+  -- operations: its model -> endpoints lookup must be what its own listings say, and both must be the base
+  -- registry's (which `checkObs` holds against the last accepted listings)
+  let rrModels : List (List String) := (jarr (jget stepJ "rr_models")).map (fun l => sortStr (jstrList l))
+  let rrPresent := !(jisNull (jget stepJ "rr_models"))
+  let rrEps := ns.map (fun x => (x, sortNat (jnatList (jget (jget stepJ "rr_eps") x))))
+  let rrSelf := ns.all (fun x => x == "" ||
+    (rrEps.lookup x).getD [] == sortNat ((List.range n).filter (fun e => (rrModels.getD e []).contains x)))
+  let rrBase := rrEps.filter (fun p => p.1 != "") == implObs.eps.filter (fun p => p.1 != "") &&
+    rrModels == implObs.models.map (fun l => sortStr (l.map (·.name)))
+  let rrOk := !rrPresent || (rrSelf && rrBase)
+  let agree := agree && rrOk
   let fail' := match acc.fail with
     | some f => some f
     | none =>
+      if !rrOk then some ("routing-registry-lookup-differs-from-listings", s!"after step {acc.nsteps} ({describe o}): the non-unified registry (enable_unifier: false) answers model -> endpoints {rrEps} with listings {rrModels}; base registry {implObs.eps}") else
       match checkObs n ns ref' seen' implObs (seq || pending'.isEmpty) (!single') with
       | none => none
       | some clause => some (classify clause o reorder', s!"after step {acc.nsteps} ({describe o}): {clause} disagrees with the last accepted listings")
